@@ -20,6 +20,9 @@ Repeatable(x) == x.k \notin ({"look", "lookb", "empty"} \cup AssertKinds)
 LookBehindOK(x) == LET arms == IF x.k = "alt" THEN x.xs ELSE <<x>>
                    IN \A j \in 1..Len(arms) : FixLen(arms[j]) >= 0
 
+\* A condition that is nothing but a back-reference, however it is bracketed -- (?(\1)..), (?((?:\1))..) -- is read
+\* by the parser as the group test (?(1)..); such conditions are therefore written as bex nodes only.
+CondExprOK(c) == c.k # "bref"
 RefTargets(g, open, prof) == IF prof.unrestricted THEN 1..g ELSE (1..g) \ open
 
 Leaves(g, open, prof) ==
@@ -52,7 +55,7 @@ P(n, g, open, prof) ==
               THEN UNION { UNION { UNION { { [a |-> Cond(c.a, y.a, z.a), g |-> z.g]
                                              : z \in (IF n - 1 - i - k = 0 THEN {[a |-> Empty, g |-> y.g]}
                                                       ELSE P(n - 1 - i - k, y.g, open, prof)) }
-                                           : y \in P(k, c.g, open, prof) } : c \in P(i, g, open, prof) }
+                                           : y \in P(k, c.g, open, prof) } : c \in {cc \in P(i, g, open, prof) : CondExprOK(cc.a)} }
                            : <<i, k>> \in {<<i, k>> \in (1..(n - 2)) \X (1..(n - 2)) : i + k <= n - 1} }
               ELSE {})
 
